@@ -101,7 +101,7 @@ impl Prop for C11 {
         ]
     }
     fn cases(tier: Tier) -> u64 {
-        tier.pick(3000, 60_000)
+        tier.pick(3000, 20_000)
     }
     fn strategy(tier: Tier) -> BoxedStrategy<Case> {
         let variant = (
